@@ -124,6 +124,11 @@ pub fn writer_op<W: embedded_io::Write<Error = E>, E: embedded_io::Error>(
             }
             Ok(())
         }
+        "g" => {
+            // write! / writeln! with a LITERAL format string and no run-time arguments (fmt::Arguments::as_str() is Some)
+            let i = unhex(arg).first().copied().unwrap_or(0) as usize;
+            write_literal(w, i).map_err(|_| mkerr())
+        }
         "t" => w.write_title(as_str(&unhex(arg))),
         "e" => {
             let p: Vec<&str> = arg.split('.').collect();
@@ -132,6 +137,56 @@ pub fn writer_op<W: embedded_io::Write<Error = E>, E: embedded_io::Error>(
             w.write_list_element(as_str(&name), as_str(&desc), p[2].parse().unwrap())
         }
         _ => panic!("writer op {}", kind),
+    }
+}
+
+/// the literal table of the `g` writer op / `do` handler action (mirrors Model/Handler.v : LITS)
+pub fn write_literal<W: core::fmt::Write>(w: &mut W, i: usize) -> core::fmt::Result {
+    match i % 8 {
+        0 => write!(w, "done"),
+        1 => write!(w, "one\ntwo\n"),
+        2 => write!(w, ""),
+        3 => writeln!(w, "x"),
+        4 => write!(w, "a\r\nb"),
+        5 => write!(w, "tail\r"),
+        6 => writeln!(w, "\u{e9}\n"),
+        _ => writeln!(w),
+    }
+}
+
+/// one action of the scripted `do` command: the first byte of the value selects it, the rest is its text
+fn do_action<W: embedded_io::Write<Error = E>, E: embedded_io::Error>(
+    cli: &mut CliHandle<'_, W, E>,
+    v: &str,
+    mkerr: fn() -> E,
+) -> Result<(), E> {
+    let Some(k) = v.as_bytes().first().copied() else { return Ok(()) };
+    if !v.is_char_boundary(1) {
+        return Ok(()); // first character is not ASCII: no action (the model's selector byte matches no letter)
+    }
+    let t = &v[1..];
+    let first = t.as_bytes().first().copied().unwrap_or(0) as usize;
+    match k {
+        b's' => cli.writer().write_str(t),
+        b'l' => cli.writer().writeln_str(t),
+        b'n' => cli.writer().write_str(&format!("{}\n", t)),
+        b'm' => cli.writer().write_str(&format!("{}\n{}", t, t)),
+        b'p' => {
+            cli.set_prompt(PROMPTS[first % 4]);
+            Ok(())
+        }
+        b'g' => write_literal(cli.writer(), first).map_err(|_| mkerr()),
+        b'c' => {
+            for ch in t.chars() {
+                core::fmt::Write::write_fmt(cli.writer(), format_args!("{}", ch)).map_err(|_| mkerr())?;
+            }
+            Ok(())
+        }
+        b'f' => core::fmt::Write::write_fmt(cli.writer(), format_args!("{}", t)).map_err(|_| mkerr()),
+        b'u' => ufmt::uwrite!(cli.writer(), "{}", t),
+        b't' => cli.writer().write_title(t),
+        b'e' => cli.writer().write_list_element(t, t, first % 8),
+        _ => Ok(()),
     }
 }
 
@@ -158,6 +213,7 @@ pub fn raw_handler<W: embedded_io::Write<Error = E>, E: embedded_io::Error>(
     cli: &mut CliHandle<'_, W, E>,
     raw: RawCommand<'_>,
     log: &Rc<RefCell<Vec<String>>>,
+    mkerr: fn() -> E,
 ) -> Result<(), E> {
     log.borrow_mut().push(format!(
         "{}({})",
@@ -220,6 +276,11 @@ pub fn raw_handler<W: embedded_io::Write<Error = E>, E: embedded_io::Error>(
             }
         }
         "quiet" => {}
+        "do" => {
+            for v in &vals {
+                do_action(cli, v, mkerr)?;
+            }
+        }
         "empty" => {
             cli.writer().write_str("")?;
         }
@@ -356,7 +417,7 @@ fn ses_raw(cap: usize, hcap: usize, pi: usize, ops: &str) -> String {
     let calls: Rc<RefCell<Vec<String>>> = Rc::new(RefCell::new(vec![]));
     let calls2 = calls.clone();
     let mut processor = RawCommand::processor(move |cli: &mut CliHandle<'_, Sink, SinkErr>, raw: RawCommand<'_>| {
-        raw_handler(cli, raw, &calls2)
+        raw_handler(cli, raw, &calls2, || SinkErr)
     });
     run_session(&mut cli, &calls, ops, |cli, b| cli.process_byte::<RawCommand<'_>, _>(b, &mut processor))
 }
